@@ -157,6 +157,11 @@ fn gen_case(seed: u64, i: u64, thorough: bool) -> Case {
             if r.chance(1, 4) {
                 d.extend(seeds::pdu_seed(r));
             }
+            // structure-preserving shrink: one (sub-)item of an A-ASSOCIATE-RQ/AC is cut to a few bytes and every
+            // enclosing length is recomputed, so that the outer length checks pass and the inner reader is reached
+            if r.chance(1, 2) && shrink_assoc_item(r, &mut d) {
+                muts.push("item-shrink");
+            }
             for _ in 0..nmut {
                 if d.len() >= 6 && r.chance(1, 3) {
                     // the PDU length (or an item length) becomes a small number: bodies around the
@@ -274,6 +279,70 @@ fn gen_case(seed: u64, i: u64, thorough: bool) -> Case {
             Case { kind: "text".into(), arg: which.into(), muts, data: d }
         }
     }
+}
+
+/// `d` = one A-ASSOCIATE-RQ/AC PDU (type 1 or 2): pick a variable item or a user-information sub-item, cut its
+/// body to 0..=8 bytes (optionally dropping what follows it), and fix the item, user-information and PDU lengths
+fn shrink_assoc_item(r: &mut Rng, d: &mut Vec<u8>) -> bool {
+    if d.len() < 74 || !(d[0] == 1 || d[0] == 2) {
+        return false;
+    }
+    let plen = u32::from_be_bytes([d[2], d[3], d[4], d[5]]) as usize;
+    if 6 + plen != d.len() {
+        return false;
+    }
+    // variable items start at offset 74
+    fn items(b: &[u8]) -> Option<Vec<(usize, usize)>> {
+        // (offset of the item, body length)
+        let mut v = vec![];
+        let mut i = 0;
+        while i < b.len() {
+            if i + 4 > b.len() {
+                return None;
+            }
+            let l = u16::from_be_bytes([b[i + 2], b[i + 3]]) as usize;
+            if i + 4 + l > b.len() {
+                return None;
+            }
+            v.push((i, l));
+            i += 4 + l;
+        }
+        Some(v)
+    }
+    let Some(top) = items(&d[74..]) else { return false };
+    let Some(&(uo, ul)) = top.iter().find(|(o, _)| d[74 + o] == 0x50) else { return false };
+    let ubody = 74 + uo + 4;
+    let in_user = r.chance(3, 4);
+    if in_user {
+        let Some(subs) = items(&d[ubody..ubody + ul]) else { return false };
+        if subs.is_empty() {
+            return false;
+        }
+        let (so, sl) = *r.pick(&subs);
+        let k = r.usize(0, sl.min(8));
+        let keep_rest = r.chance(1, 2);
+        let mut nb: Vec<u8> = d[ubody..ubody + so + 4 + k].to_vec();
+        nb[so + 2..so + 4].copy_from_slice(&(k as u16).to_be_bytes());
+        if keep_rest {
+            nb.extend_from_slice(&d[ubody + so + 4 + sl..ubody + ul]);
+        }
+        let tail: Vec<u8> = d[ubody + ul..].to_vec();
+        d.truncate(ubody);
+        d[ubody - 2..ubody].copy_from_slice(&(nb.len() as u16).to_be_bytes());
+        d.extend(nb);
+        d.extend(tail);
+    } else {
+        let (o, l) = *r.pick(&top);
+        let k = r.usize(0, l.min(8));
+        let start = 74 + o;
+        let tail: Vec<u8> = d[start + 4 + l..].to_vec();
+        d.truncate(start + 4 + k);
+        d[start + 2..start + 4].copy_from_slice(&(k as u16).to_be_bytes());
+        d.extend(tail);
+    }
+    let n = (d.len() - 6) as u32;
+    d[2..6].copy_from_slice(&n.to_be_bytes());
+    true
 }
 
 struct Worker {
